@@ -300,8 +300,14 @@ func skCmdText(c *skCmd) string {
 	case "false":
 		return "false"
 	case "exit":
+		if c.Lit != "" {
+			return "exit " + c.Lit
+		}
 		return "exit" + skNum(c.N)
 	case "ret":
+		if c.Lit != "" {
+			return "return " + c.Lit
+		}
 		return "return" + skNum(c.N)
 	case "brk":
 		return "break" + skNum(c.N)
@@ -540,7 +546,12 @@ func skIntArg(args []*syntax.Word) (*int, bool) {
 	}
 	lit := args[0].Lit()
 	n, err := strconv.Atoi(lit)
-	if err != nil || lit != strconv.Itoa(n) || n > 100000 || n < -100000 {
+	// decimal digits only; leading zeros are still decimal for bash (`exit 010` is 10, `exit 08` is 8)
+	canon := strings.TrimLeft(lit, "0")
+	if canon == "" && lit != "" {
+		canon = "0"
+	}
+	if err != nil || (lit != strconv.Itoa(n) && canon != strconv.Itoa(n)) || n > 100000 || n < -100000 {
 		return nil, false
 	}
 	return &n, true
@@ -638,7 +649,14 @@ func (cv *skConv) call(ce *syntax.CallExpr) (*skCmd, bool) {
 			return nil, cv.fail("negative status")
 		}
 		k := map[string]string{"exit": "exit", "return": "ret", "break": "brk", "continue": "cont"}[name]
-		return &skCmd{K: k, N: n}, true
+		pad := ""
+		if n != nil && args[0].Lit() != strconv.Itoa(*n) {
+			if name == "break" || name == "continue" {
+				return nil, cv.fail("zero-padded loop count")
+			}
+			pad = args[0].Lit()
+		}
+		return &skCmd{K: k, N: n, Lit: pad}, true
 	case "set":
 		switch {
 		case len(args) == 1 && args[0].Lit() == "-e":
@@ -1342,7 +1360,7 @@ func (g *skGen) atom(k skCtx) *skCmd {
 				continue // exits of the main shell end the experiment early: keep them rare
 			}
 			if r.Bool() {
-				return &skCmd{K: "exit", N: intp(c26PickInt(r, []int{0, 1, 2, 3, 7, 255, 256, 300}))}
+				return c26Padded(r, &skCmd{K: "exit", N: intp(c26PickInt(r, []int{0, 1, 2, 3, 7, 8, 10, 100, 255, 256, 300}))})
 			}
 			return &skCmd{K: "exit"}
 		case c < 16:
@@ -1350,7 +1368,7 @@ func (g *skGen) atom(k skCtx) *skCmd {
 				if g.wildly() && r.Bool() {
 					return &skCmd{K: "ret"}
 				}
-				return &skCmd{K: "ret", N: intp(c26PickInt(r, []int{0, 1, 2, 3, 9, 257}))}
+				return c26Padded(r, &skCmd{K: "ret", N: intp(c26PickInt(r, []int{0, 1, 2, 3, 8, 9, 10, 100, 257}))})
 			}
 		case c < 19:
 			kind := r.Pick([]string{"brk", "cont"})
@@ -1409,6 +1427,16 @@ func c26FailAtom(r *Rand) *skCmd {
 		return &skCmd{K: "false"}
 	}
 	return &skCmd{K: "exit", N: intp(c26PickInt(r, []int{1, 3, 7}))}
+}
+
+// c26Padded: the operand of exit/return is sometimes written with leading zeros (`07`, `010`,
+// `08`, `0100`): still decimal for bash and for the interpreter's Atoi (seeded change C26-4 read
+// them in base 0).
+func c26Padded(r *Rand, c *skCmd) *skCmd {
+	if r.Intn(3) == 0 {
+		c.Lit = strings.Repeat("0", 1+r.Intn(2)) + strconv.Itoa(*c.N)
+	}
+	return c
 }
 
 func c26PickInt(r *Rand, s []int) int { return s[r.Intn(len(s))] }
